@@ -2311,6 +2311,11 @@ class TaskPool:
         self.db_add_new_flow_rows(itask)
         self._set_prereqs_itask(itask, prereqs, xtrigs, set_all)
         self.add_to_pool(itask)
+        if self._get_task_by_id(itask.identity) is not itask:
+            # The pool already holds this task instance (in other flows):
+            # the new object was not added, so it must not be handed back
+            # (the caller would trigger an object that is not in the pool).
+            return None
         return itask
 
     def _get_active_flow_nums(self) -> 'FlowNums':
